@@ -344,8 +344,11 @@ func ruleDiskWatcherTable(r *core.Reporter, wd, cdu *ssa.Function) {
 		}
 	}
 	var flags []*ssa.Phi
+	// state variables live outside the tick arm: phis computed inside the arm (e.g. the result of an inlined
+	// helper) are intermediate values, not state
+	inArm := ir.Reach([]ir.Pt{{B: arm.Body, I: 0}}, ir.Opts{Stop: func(in ssa.Instruction) bool { return in.Block() == selBlock }}).Reached
 	allInstrs(wd, func(in ssa.Instruction) {
-		if ph, ok := in.(*ssa.Phi); ok {
+		if ph, ok := in.(*ssa.Phi); ok && !inArm[in] {
 			if b, isB := ph.Type().Underlying().(*types.Basic); isB && b.Kind() == types.Bool {
 				flags = append(flags, ph)
 			}
